@@ -599,6 +599,28 @@ class AccessMixin(object):
           arr = self.arr(st, key, sorts)
           st.heap[key] = z3.Store(arr, r, z3.Select(arr, a.t))
       yield st, res
+    elif name == 'list' and len(args) == 1 and isinstance(args[0], V) and args[0].ty.k == 'set':
+      # list(<set>): the members in some order, each once
+      a = args[0]
+      ety = a.ty.args[0]
+      mem = self.set_mem_arr(st, a)
+      card = self.set_card(st, a)
+      r = self.new_ref(st)
+      res = V(Ty('list', [ety]), r)
+      n = z3.Int(fresh_name('n'))
+      so = base_sort(ety)
+      items = z3.Const(fresh_name('elems'), z3.ArraySort(I, so))
+      k, k2 = z3.Int(fresh_name('k')), z3.Int(fresh_name('k2'))
+      x = z3.Const(fresh_name('x'), so)
+      st.assume(z3.And(n >= 0, n == card, (n == 0) == (mem == z3.EmptySet(so))))
+      st.assume(z3.ForAll([k], z3.Implies(z3.And(0 <= k, k < n), z3.Select(mem, z3.Select(items, k))), patterns=[z3.Select(items, k)]))
+      st.assume(z3.ForAll([x], z3.Implies(z3.Select(mem, x), z3.Exists([k], z3.And(0 <= k, k < n, z3.Select(items, k) == x)))))
+      st.assume(z3.ForAll([k, k2], z3.Implies(z3.And(0 <= k, k < k2, k2 < n), z3.Select(items, k) != z3.Select(items, k2))))
+      self.set_list_len(st, res, n)
+      key = self.ckey(res.ty, 'items')
+      arr = self.arr(st, key, [I, I, so])
+      st.heap[key] = z3.Store(arr, r, items)
+      yield st, res
     elif name == 'set' and len(args) == 1 and isinstance(args[0], V) and args[0].ty.k == 'set':
       a = args[0]
       r = self.new_ref(st)
